@@ -92,13 +92,14 @@ def directed_family(quick):
                 for shapes in itertools.product(menu, repeat=nl + nr):
                     for order in sorted(set(itertools.permutations(["L"] * nl + ["R"] * nr))):
                         for inner in ((False, True) if nl + nr else (False,)):
-                            r = _snake_recipe(a, ar, al, left_snake, order, shapes, inner)
-                            if r is not None:
-                                out.append(r)
+                            for collector in (False, True):
+                                r = _snake_recipe(a, ar, al, left_snake, order, shapes, inner, collector)
+                                if r is not None:
+                                    out.append(r)
     return out
 
 
-def _snake_recipe(a, ar, al, left_snake, order, shapes, inner=False):
+def _snake_recipe(a, ar, al, left_snake, order, shapes, inner=False, collector=False):
     """dom = lw (x) a (x) rw.  A cap is opened next to the wire a, obstruction boxes act between
     the cap and the cup, then the cup closes the snake.  Obstructions act on the outer context
     wire of their side; with inner=True the obstructions of the side where the cap's *free* leg
@@ -142,6 +143,9 @@ def _snake_recipe(a, ar, al, left_snake, order, shapes, inner=False):
         layers.append((("cup", a, ar), nl))
     else:
         layers.append((("cup", al, a), nl + 1))
+    if collector:   # one box joining every remaining wire: connects all boxes that have a wire
+        rest = tuple(left_ctx) + (a,) + tuple(right_ctx)
+        layers.append((("box", "collect", rest, ()), 0))
     return ("rigid", dom, tuple(layers))
 
 
@@ -247,20 +251,26 @@ def check_normalize(params):
     width = max(len(t) for t in ref.m_types(m0))
     mats = {dim: matrix_of(d, dim) for dim in ((2, 3) if width <= 4 else (2,))} \
         if params.get("matrices", True) else {}
-    trace, seen, status = [], {ref.diagram_key(d)}, "done"
+    # pull the generator step by step; a repeated state is remembered (normal_form must then
+    # report it) but the trace is followed up to the horizon, so that an exception or an unsound
+    # step *after* a repeat is seen too
+    trace, seen, status, repeated = [], {ref.diagram_key(d)}, "done", False
     try:
         for step in d.normalize(left=left):
             trace.append(step)
             k = ref.diagram_key(step)
             if k in seen:
-                status = "cycle"
-                break
+                repeated = True
             seen.add(k)
             if len(trace) >= horizon:
                 status = "horizon"
                 break
     except Exception as e:  # noqa
         status = ("error", e)
+    if repeated and status in ("done", "horizon"):
+        status = "cycle"
+    elif status == "horizon":
+        status = "horizon"
     prev = d
     for t, step in enumerate(trace):
         errs = ref.scan(step)
